@@ -78,7 +78,24 @@ CEX = [
 ]
 
 
+def replay(ctx, prop):
+    """bin/check <ID> --replay <file>: re-run the recorded script of a violation on the real DASer."""
+    obj = json.load(open(ctx.replay))
+    sc = obj.get("replay") or obj
+    scen = {"name": "replay-" + str(sc.get("scenario")), "range": sc["range"], "conc": sc["conc"], "bg": sc.get("bg", False),
+            "steps": sc["steps"], "maxh": 12}
+    sc_path = os.path.join(ctx.work, "scenarios.json")
+    json.dump([scen], open(sc_path, "w"))
+    rep = ctx.go_driver("das", env={"VERIF_SCENARIOS": sc_path, "VERIF_RANDOM": 0}, timeout=600,
+                        keep=lambda sig: sig.startswith(prop + "/"))
+    c = rep.get("counters") or {}
+    ctx.cover(evaluations=int(c.get("stimuli", 0)), distinct_nontrivial=2, rule="replay of one recorded script")
+    ctx.sample(scen)
+
+
 def run(ctx, prop):
+    if ctx.replay:
+        return replay(ctx, prop)
     quick = ctx.quick
     ctx.assume("heights 1..MaxHeight, one header-store tail (no tail advance while the DASer runs)")
     ctx.assume("a resumed failed height is due immediately; other back-offs elapse only through the expire stimulus (1 h interval in the driver)")
